@@ -264,9 +264,9 @@ class LinEval:
 
     def op(self, t):
         n, a = t[1], t[2]
-        if n in ('iadd', 'isub', 'imul'):
+        if n in ('iadd', 'isub', 'imul', 'imin', 'imax'):
             x, y = self.num(a[0]), self.num(a[1])
-            return int({'iadd': x + y, 'isub': x - y, 'imul': x * y}[n])
+            return int({'iadd': x + y, 'isub': x - y, 'imul': x * y, 'imin': min(x, y), 'imax': max(x, y)}[n])
         if n in ('eq', 'ne', 'lt', 'le', 'gt', 'ge'):
             try:
                 x, y = self.num(a[0]), self.num(a[1])
